@@ -133,7 +133,15 @@ func New() *Server {
 }
 
 func (s *Server) Start() (string, error) {
-	ln, err := net.Listen("tcp", "127.0.0.1:0")
+	// under heavy load the ephemeral port range can be exhausted for a moment: wait and try again
+	var ln net.Listener
+	var err error
+	for i := 0; i < 600; i++ {
+		if ln, err = net.Listen("tcp", "127.0.0.1:0"); err == nil {
+			break
+		}
+		time.Sleep(100 * time.Millisecond)
+	}
 	if err != nil {
 		return "", err
 	}
